@@ -458,6 +458,44 @@ func (ev *SpecEval) callSpec(e *SExpr) SVal {
 			ev.fail("unknown type %s", name)
 		}
 		return SVal{V: Eq(iv.Tag, IntLit(typeTag(t))), T: boolT}
+	case "typetag": // typetag("pkg.Type" | "*pkg.Type"): the dynamic-type tag of a type
+		name := e.Args[0].Name
+		var t types.Type
+		if strings.HasPrefix(name, "*") {
+			if nt := ev.vc.prog.namedType(name[1:]); nt != nil {
+				t = types.NewPointer(nt)
+			}
+		} else {
+			t = ev.vc.prog.namedType(name)
+		}
+		if t == nil {
+			ev.fail("unknown type %s", name)
+		}
+		return SVal{V: IntLit(typeTag(t)), T: intT}
+	case "eqExcept": // eqExcept(a, b, "Field"...): two structs of the same type agree on every field but the named ones (shallow)
+		a := ev.rvalue(ev.eval(e.Args[0])).(StructV)
+		b := ev.rvalue(ev.eval(e.Args[1])).(StructV)
+		stt := a.T.Underlying().(*types.Struct)
+		skip := map[string]bool{}
+		for _, x := range e.Args[2:] {
+			skip[x.Name] = true
+			found := false
+			for i := 0; i < stt.NumFields(); i++ {
+				if stt.Field(i).Name() == x.Name {
+					found = true
+				}
+			}
+			if !found {
+				ev.fail("eqExcept: no field %s in %s", x.Name, a.T)
+			}
+		}
+		var cs []*Term
+		for i := 0; i < stt.NumFields(); i++ {
+			if !skip[stt.Field(i).Name()] {
+				cs = append(cs, eqValue(a.F[i], b.F[i]))
+			}
+		}
+		return SVal{V: And(cs...), T: boolT}
 	case "tagof":
 		v := ev.rvalue(ev.eval(e.Args[0])).(IfaceV)
 		return SVal{V: v.Tag, T: intT}
